@@ -65,6 +65,8 @@ def cooc_params(c, timed=False, multi=False):
     p["epsilon"] = r.choice([0, 0, 0.05, 0.2])
     p["n_threads"] = r.choice([1, 1, 2, 3])
     if r.random() < 0.3:
+        p["coo_initial_memory"] = r.choice(["1k", "2k", "20k"])
+    if r.random() < 0.3:
         p["min_occurrences"] = 2
     if r.random() < 0.3:
         p["mask_string"] = "MASK"
